@@ -350,6 +350,26 @@ func (Prop) Exec(c kernel.Case) *kernel.Violation {
 // ---- workload ---------------------------------------------------------------------------
 
 // directed programs biased to the rewrite preconditions and their near misses.
+// function definitions carried by the operand a rewrite looks at: the rewrite must not drop them
+// (a definition that does not compile must still be rejected) nor lose their scope
+var defCarriers = func() []struct{ Src, In string } {
+	var out []struct{ Src, In string }
+	defs := []string{"def zz: nofunc;", "def zz: $nope;", "def zz: 1;", "def zz: .a;", "def zz(f): f;", "def zz: zz;", "def zz: def yy: nofunc2; 1;", "def zz: break $nolabel;"}
+	shapes := []string{
+		"(D .a) = 1", "(D .a.b) = 1", "(D .[0]) = 1", "(D .a) |= 1", "(D .a) += 1", "((D .a)) = 1", "(D (D .a)) = 1", ".a = (D 1)", "(D .a[1:]) = [1]", "del(D .a)", "path(D .a)",
+		"[(D 1), 2]", "[1, (D 2)]", "[(D 1)]", "{a: (D 1)}", "{(D \"a\"): 1}", "{a: 1, b: (D 2)}", ".[(D \"a\")]", ".[(D 0)]", ".[(D 1):]", ".[:(D 1)]", "-(D 1)", "+(D 1)", "(D 1) as $x | $x", "(D .) as [$x] | $x",
+		"if (D true) then 1 else 2 end", "if . then (D 1) else (D 2) end", "if (D empty) then 1 else 2 end", "def w(f): f; w(D .)", "def w(f): f; w(D 1)", "def w(f): f; w(D .a)", "def w: (D .) | w?; 1", "try (D 1) catch .", "(D 1), (D 2)", "(D 1) // 2", "label $l | (D 1)", "reduce (D .) as $x (0; 1)", "first(D 1)", "(D .a)?", "(D .)[0]?", "(D \"a\")[0:1]", "@json \"\\(D 1)\"", "\"\\(D 1)\"", "(D .) | zz?",
+	}
+	for _, sh := range shapes {
+		for _, d := range defs {
+			out = append(out, struct{ Src, In string }{strings.ReplaceAll(sh, "D", d), `{"a":{"b":[1,2]},"b":2}`})
+		}
+	}
+	return out
+}()
+
+func init() { directed = append(directed, defCarriers...) }
+
 var directed = []struct{ Src, In string }{
 	{`.[1:2], .[1.5:2.5], .[-1:], .[null:1], .[1:null], .[:-1], .[10:], .[-10:2], .[1:1], .[2:1]`, `[1,2,3,4]`},
 	{`.[1:2], .[1.5:2.5], .[-1:], .[null:1], .[:-1], .[10:]`, `"abcdef"`},
